@@ -78,10 +78,22 @@ type c07Place struct {
 }
 
 type c07Case struct {
-	Cfg   dCfg     `json:"cfg"`
-	Rule  int      `json:"rule"`
-	Text  string   `json:"text"`
-	Place c07Place `json:"place"`
+	Cfg       dCfg     `json:"cfg"`
+	Eol       string   `json:"eol"` // lf | crlf
+	Rule      int      `json:"rule"`
+	Text      string   `json:"text"`
+	Place     c07Place `json:"place"`     // in the numbering of the committed file
+	Prior     string   `json:"prior"`     // none | expired
+	PriorText string   `json:"priortext"` // comment already in the file in front of the new one
+	PPlace    c07Place `json:"pplace"`    // where it sits
+	EPlace    c07Place `json:"eplace"`    // where the new comment goes in the file that holds the prior comment
+}
+
+func c07Eol(content, eol string) string {
+	if eol == "crlf" {
+		return strings.ReplaceAll(content, "\n", "\r\n")
+	}
+	return content
 }
 
 type c07Rep struct {
@@ -229,13 +241,14 @@ func c07Proj(res pipe.Result) []string {
 
 func c07Scenarios(in []json.RawMessage) (keys []string, cfgs map[string]dCfg, raws map[string]json.RawMessage, byScen map[string][]int, cases []c07Case, err error) {
 	cfgs, raws, byScen = map[string]dCfg{}, map[string]json.RawMessage{}, map[string][]int{}
+	// scenario = (configuration, line ending of the rule file)
 	cases = make([]c07Case, len(in))
 	for i, raw := range in {
 		if err = json.Unmarshal(raw, &cases[i]); err != nil {
 			return
 		}
 		rc := mustField(raw, "cfg")
-		k := string(rc)
+		k := cases[i].Eol + "\x00" + string(rc)
 		if _, ok := cfgs[k]; !ok {
 			keys = append(keys, k)
 			cfgs[k] = cases[i].Cfg
@@ -260,11 +273,12 @@ func init() {
 		for si, k := range keys {
 			dir := filepath.Join(root, "s"+strconv.Itoa(si))
 			os.MkdirAll(dir, 0o755)
-			reps, rules, checks, _, err := c07Lint(dir, renderCfg(cfgs[k]), c07Rules)
+			eol := strings.SplitN(k, "\x00", 2)[0]
+			reps, rules, checks, _, err := c07Lint(dir, renderCfg(cfgs[k]), c07Eol(c07Rules, eol))
 			if err != nil {
 				return fmt.Errorf("scenario %d: %v", si+1, err)
 			}
-			out.Write(map[string]any{"ev": "Base", "scen": si + 1, "cfg": raws[k], "reports": reps, "rules": rules, "checks": checks})
+			out.Write(map[string]any{"ev": "Base", "scen": si + 1, "cfg": raws[k], "eol": eol, "reports": reps, "rules": rules, "checks": checks})
 		}
 		return nil
 	})
@@ -298,28 +312,44 @@ func init() {
 			cfgText := renderCfg(cfgs[k])
 			bdir := filepath.Join(root, fmt.Sprintf("s%d-base", si))
 			os.MkdirAll(bdir, 0o755)
-			reps, rules, checks, _, err := c07Lint(bdir, cfgText, c07Rules)
+			eol := strings.SplitN(k, "\x00", 2)[0]
+			reps, rules, checks, _, err := c07Lint(bdir, cfgText, c07Eol(c07Rules, eol))
 			if err != nil {
 				return fmt.Errorf("scenario %d base: %v", si+1, err)
 			}
-			out.Write(map[string]any{"ev": "Base", "scen": si + 1, "cfg": raws[k], "reports": reps, "rules": rules, "checks": checks})
+			out.Write(map[string]any{"ev": "Base", "scen": si + 1, "cfg": raws[k], "eol": eol, "reports": reps, "rules": rules, "checks": checks})
 			idx := byScen[k]
 			results := make([]map[string]any, len(idx))
 			errs := make([]error, len(idx))
 			parallel(len(idx), workers, func(j int) {
 				ci := idx[j]
 				c := cases[ci]
-				content, err := c07Insert(c07Rules, c.Place, c.Text)
-				if err != nil {
-					errs[j] = fmt.Errorf("case %d: %v", ci+1, err)
-					return
-				}
 				dir, err := os.MkdirTemp(root, "c-")
 				if err != nil {
 					errs[j] = err
 					return
 				}
 				defer os.RemoveAll(dir)
+				content := c07Rules
+				basereps := []c07Rep{}
+				if c.Prior != "none" && c.Prior != "" {
+					// the file already holds a comment: its own base run
+					if content, err = c07Insert(content, c.PPlace, c.PriorText); err != nil {
+						errs[j] = fmt.Errorf("case %d: %v", ci+1, err)
+						return
+					}
+					pdir := filepath.Join(dir, "prior")
+					os.MkdirAll(pdir, 0o755)
+					if basereps, _, _, _, err = c07Lint(pdir, cfgText, c07Eol(content, c.Eol)); err != nil {
+						errs[j] = fmt.Errorf("case %d (prior %s): %v", ci+1, c.PriorText, err)
+						return
+					}
+				}
+				if content, err = c07Insert(content, c.EPlace, c.Text); err != nil {
+					errs[j] = fmt.Errorf("case %d: %v", ci+1, err)
+					return
+				}
+				content = c07Eol(content, c.Eol)
 				reps, rules, checks, proj, err := c07Lint(dir, cfgText, content)
 				if err != nil {
 					errs[j] = fmt.Errorf("case %d (%s at %v): %v", ci+1, c.Text, c.Place, err)
@@ -338,7 +368,7 @@ func init() {
 				var m map[string]json.RawMessage
 				json.Unmarshal(in[ci], &m)
 				results[j] = map[string]any{"ev": "Run", "id": ci + 1, "scen": si + 1, "rule": c.Rule, "cmt": m["cmt"], "place": m["place"],
-					"text": c.Text, "reports": reps, "rules": rules, "checks": checks, "bin": sampled, "proj": proj, "binproj": binproj}
+					"prior": c.Prior, "pplace": m["pplace"], "eplace": m["eplace"], "basereports": basereps, "eol": c.Eol, "text": c.Text, "reports": reps, "rules": rules, "checks": checks, "bin": sampled, "proj": proj, "binproj": binproj}
 			})
 			for _, e := range errs {
 				if e != nil {
